@@ -94,3 +94,14 @@ Proof. vm_compute. split; [discriminate|reflexivity]. Qed.
 
 Theorem C05_wrong_type_swallowed_refuted : run config_actual w_wrong_type_swallowed <> spec w_wrong_type_swallowed /\ run ideal w_wrong_type_swallowed = spec w_wrong_type_swallowed.
 Proof. vm_compute. split; [discriminate|reflexivity]. Qed.
+
+Definition w_language_block_error_retried_without_language : case :=
+  {| c_proj := {| p_yaml := (Doc [("nesting", VMap [("max_nesting_depth", VInt (2)%Z); ("python", VMap [("max_nesting_depth", VStr "four")])])]); p_json := Absent; p_pyproject := Absent; p_dash := None |}; c_cmd := "nesting"; c_unit := "nesting"; c_lang := "python"; c_fname := "case_src.py"; c_overrides := []; c_metrics := [("depth", (5)%Z)] |}.
+Definition w_invalid_top_level_value_shadowed_by_language_block : case :=
+  {| c_proj := {| p_yaml := Absent; p_json := (Doc [("srp", VMap [("max_methods", VInt (0)%Z); ("typescript", VMap [("max_methods", VInt (2)%Z)])])]); p_pyproject := Absent; p_dash := None |}; c_cmd := "srp"; c_unit := "srp"; c_lang := "typescript"; c_fname := "case_src.ts"; c_overrides := []; c_metrics := [("methods", (9)%Z)] |}.
+
+Theorem C05_language_block_error_retried_without_language_refuted : run config_actual w_language_block_error_retried_without_language <> spec w_language_block_error_retried_without_language /\ run ideal w_language_block_error_retried_without_language = spec w_language_block_error_retried_without_language.
+Proof. vm_compute. split; [discriminate|reflexivity]. Qed.
+
+Theorem C05_invalid_top_level_value_shadowed_by_language_block_refuted : run config_actual w_invalid_top_level_value_shadowed_by_language_block <> spec w_invalid_top_level_value_shadowed_by_language_block /\ run ideal w_invalid_top_level_value_shadowed_by_language_block = spec w_invalid_top_level_value_shadowed_by_language_block.
+Proof. vm_compute. split; [discriminate|reflexivity]. Qed.
